@@ -33,6 +33,7 @@ type specEnv struct {
 	frame    *Frame
 	specPkgPath string
 	qdepth   int
+	rdepth   int
 	resTypes []types.Type
 }
 
@@ -340,6 +341,9 @@ func (c *Ctx) findImport(p *types.Package, alias string) *types.Package {
 			return imp
 		}
 	}
+	if p.Name() == alias || p.Path() == alias {
+		return p
+	}
 	return c.findAnyPackage(alias)
 }
 
@@ -516,7 +520,7 @@ func (c *Ctx) evalIndex(env *specEnv, x, i specVal) (specVal, error) {
 	case *types.Slice:
 		fam, sort := c.famElem(u.Elem())
 		arr := c.Arr(st, fam, sort)
-		return specVal{T(c.Reg.SortOf(u.Elem()), "(select (select %s (sl_arr %s)) (+ (sl_off %s) %s))", arr.S, x.t.S, x.t.S, i.t.S), u.Elem()}, nil
+		return specVal{T(c.Reg.SortOf(u.Elem()), "(select (select %s (sl_arr %s)) (sidx %s %s))", arr.S, x.t.S, x.t.S, i.t.S), u.Elem()}, nil
 	case *types.Map:
 		k := c.coerce(st, i, u.Key())
 		v, _ := c.mapLookup(st, x.t, k, u, false)
@@ -651,11 +655,8 @@ func (c *Ctx) evalCall(env *specEnv, n *SNode) (specVal, error) {
 			return nil, fmt.Errorf("%s: missing type argument", n.Text)
 		}
 		a := n.Args[i]
-		switch a.Op {
-		case "typelit":
-			return c.resolveType(env.pkg, a.Type)
-		case "id", "sel":
-			return c.resolveType(env.pkg, a.String())
+		if txt, ok := typeTextOf(a); ok {
+			return c.resolveType(env.pkg, txt)
 		}
 		return nil, fmt.Errorf("%s: argument %d is not a type", n.Text, i)
 	}
@@ -980,8 +981,32 @@ func (c *Ctx) evalPure(env *specEnv, pd *PureDef, n *SNode) (specVal, error) {
 	if err != nil {
 		return specVal{}, err
 	}
+	if pd.Recursive {
+		sorts := make([]Sort, len(args))
+		parts := make([]string, len(args))
+		for i, a := range args {
+			sorts[i] = a.t.Sort
+			parts[i] = a.t.S
+		}
+		fn := "rpred_" + sanitize(pd.Name)
+		c.Reg.DeclFun(fn, sorts, SBool)
+		atom := T(SBool, "(%s %s)", fn, strings.Join(parts, " "))
+		if env.rdepth == 0 && pd.Body != nil {
+			sub := &specEnv{c: c, st: env.st, vars: map[string]specVal{}, pkg: pkg, fn: env.fn, frame: env.frame, rdepth: 1}
+			for i, p := range pd.Params {
+				sub.vars[p[0]] = args[i]
+			}
+			body, err := c.evalBool(sub, pd.Body)
+			if err != nil {
+				return specVal{}, fmt.Errorf("in %s: %v", pd.Name, err)
+			}
+			// one-level unfolding in the current state (the structure is immutable once built)
+			env.st.Assume(T(SBool, "(= %s %s)", atom.S, body.S))
+		}
+		return specVal{atom, rt}, nil
+	}
 	if pd.Body != nil {
-		sub := &specEnv{c: c, st: env.st, vars: map[string]specVal{}, pkg: pkg, fn: env.fn, post: env.post, results: env.results, old: env.old, oldCache: env.oldCache, frame: env.frame, loopHead: env.loopHead}
+		sub := &specEnv{c: c, st: env.st, vars: map[string]specVal{}, pkg: pkg, fn: env.fn, post: env.post, results: env.results, old: env.old, oldCache: env.oldCache, frame: env.frame, loopHead: env.loopHead, rdepth: env.rdepth}
 		for i, p := range pd.Params {
 			sub.vars[p[0]] = args[i]
 		}
@@ -1108,3 +1133,25 @@ func (c *Ctx) ctxID(st *State, ctx Term) Term {
 }
 
 var _ = math.Inf
+
+// typeTextOf renders a spec expression that was meant as a type (e.g. *node parsed as a
+// dereference) back into type text.
+func typeTextOf(a *SNode) (string, bool) {
+	switch a.Op {
+	case "typelit":
+		return a.Type, true
+	case "id":
+		return a.Text, true
+	case "sel":
+		if a.Args[0].Op == "id" {
+			return a.Args[0].Text + "." + a.Text, true
+		}
+	case "un":
+		if a.Text == "*" {
+			if t, ok := typeTextOf(a.Args[0]); ok {
+				return "*" + t, true
+			}
+		}
+	}
+	return "", false
+}
